@@ -71,7 +71,60 @@ func initKeys(seed int64) {
 		panic("c18: no non-canonical public key encoding found")
 	}
 	kidx[keys[2]] = 2
+	// keys 3 and 5 are NEAR-COLLIDING encodings: key 3 is key 0 with the sign bit flipped (the negated point: identical
+	// in bytes 0..30 and in the low 7 bits of byte 31), key 5 is key 1 with byte 0 changed to the first value that still
+	// decodes (identical in bytes 1..31).  An index keyed by a prefix, a suffix, the y-coordinate or any other part of
+	// the key confuses them; the cache must treat them as four different keys.  (Their signatures, made with unrelated
+	// private keys, are simply invalid - consistently for plain and cached verification.)
+	delete(kidx, keys[3])
+	delete(kidx, keys[5])
+	keys[3] = keys[0]
+	keys[3][31] ^= 0x80
+	var err error
+	if exps[3], err = ed25519.NewExpandedPublicKey(keys[3][:]); err != nil {
+		panic(err)
+	}
+	found = false
+	for d := 1; d < 256 && !found; d++ {
+		b := keys[1]
+		b[0] += byte(d)
+		if e, err := ed25519.NewExpandedPublicKey(b[:]); err == nil {
+			keys[5], exps[5], found = b, e, true
+		}
+	}
+	if !found {
+		panic("c18: no decodable neighbour of key 1")
+	}
+	kidx[keys[3]] = 3
+	kidx[keys[5]] = 5
 }
+
+// withKeyOrder runs f with the key alphabet permuted (universe index i holds key perm[i]), so that the small key
+// universes of the sub-spaces below (the first 2-4 indices) consist of the near-colliding keys.
+func withKeyOrder(perm [nKeys]int, f func()) {
+	ok, oe, op := keys, exps, priv
+	set := func(k [nKeys]curve.CompressedEdwardsY, e [nKeys]*ed25519.ExpandedPublicKey, p [nKeys]ed25519.PrivateKey) {
+		keys, exps, priv = k, e, p
+		for q := range kidx {
+			delete(kidx, q)
+		}
+		for i := range keys {
+			kidx[keys[i]] = i
+		}
+	}
+	var nk [nKeys]curve.CompressedEdwardsY
+	var ne [nKeys]*ed25519.ExpandedPublicKey
+	var np [nKeys]ed25519.PrivateKey
+	for i, q := range perm {
+		nk[i], ne[i], np[i] = ok[q], oe[q], op[q]
+	}
+	set(nk, ne, np)
+	defer set(ok, oe, op)
+	f()
+}
+
+// subSuffix distinguishes the sub-space names of the passes run on a permuted key alphabet.
+var subSuffix string
 
 // ---- sequential model -------------------------------------------------------
 
@@ -205,6 +258,16 @@ func run(c *mc.Ctx) {
 	seqClosure(c)
 	lruInterleavings(c)
 	verifierInterleavings(c)
+	// the same three explorations over the near-colliding keys: universe {k0, -k0, k1, k1', ...}
+	subSuffix = "/colliding-keys"
+	withKeyOrder([nKeys]int{0, 3, 1, 5, 2, 4}, func() {
+		seqClosure(c)
+		lruInterleavings(c)
+		if c.Thorough { // (the Verifier reaches the cache only through Get/Put, which the two passes above drive directly)
+			verifierInterleavings(c)
+		}
+	})
+	subSuffix = ""
 }
 
 // ---- (a) sequential closure -------------------------------------------------
@@ -215,7 +278,7 @@ func seqClosure(c *mc.Ctx) {
 	if c.Thorough {
 		cfgs = append(cfgs, cfg{4, 6}, cfg{3, 6})
 	}
-	c.Seq("lru-seq-closure", len(cfgs), func(w *mc.W, ci int) {
+	c.Seq("lru-seq-closure"+subSuffix, len(cfgs), func(w *mc.W, ci int) {
 		g := cfgs[ci]
 		var alphabet []op
 		for k := 0; k < g.univ; k++ {
@@ -390,7 +453,7 @@ func lruInterleavings(c *mc.Ctx) {
 			for i := 0; i < slots; i++ {
 				nprog *= len(alphabet)
 			}
-			sub := fmt.Sprintf("lru-interleave/T%dx%d/cap%d", sh.threads, sh.ops, cp)
+			sub := fmt.Sprintf("lru-interleave/T%dx%d/cap%d", sh.threads, sh.ops, cp) + subSuffix
 			outcomes := map[string]bool{}
 			var schedules, unprot int64
 			c.Seq(sub, nprog, func(w *mc.W, pi int) {
@@ -657,7 +720,7 @@ func verifierInterleavings(c *mc.Ctx) {
 				for i := 0; i < slots; i++ {
 					nprog *= len(alphabet)
 				}
-				sub := fmt.Sprintf("%s/T%dx%d/cap%d", prefix, sh.threads, sh.ops, cp)
+				sub := fmt.Sprintf("%s/T%dx%d/cap%d", prefix, sh.threads, sh.ops, cp) + subSuffix
 				var schedules int64
 				outcomes := map[string]bool{}
 				c.Seq(sub, nprog, func(w *mc.W, pi int) {
